@@ -301,7 +301,182 @@ func destCode(s string) int {
 	return destCodes[s]
 }
 
+// c05Aggregate drives pwr.AggregateWounds directly with synthetic marker sequences and small
+// maxSize values, so that the flush-at-maxSize path (4 MiB of contiguous damage at the real
+// constant) is reached with a handful of markers.
+func c05Aggregate(c *Ctx) error {
+	r := c.Rng.Fork()
+	n := c.N(120, 1500)
+	for i := 0; i < n; i++ {
+		unit := int64([]int{1, 10, 65536}[r.Intn(3)])
+		maxSize := unit * int64(r.Range(1, 5))
+		if r.Chance(1, 5) {
+			maxSize = unit*int64(r.Range(1, 5)) - 1
+		}
+		cnt := r.Range(0, 12)
+		var in []*pwr.Wound
+		pos := int64(0)
+		for k := 0; k < cnt; k++ {
+			kind := pwr.WoundKind_FILE
+			if r.Chance(1, 4) {
+				kind = pwr.WoundKind_CLOSED_FILE
+			}
+			if r.Chance(1, 12) {
+				pos += unit * int64(r.Range(1, 3)) // a gap
+			}
+			sz := unit
+			if r.Chance(1, 6) {
+				sz = unit * int64(r.Range(0, 3))
+			}
+			in = append(in, &pwr.Wound{Kind: kind, Index: 3, Start: pos, End: pos + sz})
+			pos += sz
+		}
+		out := make(chan *pwr.Wound, 64)
+		inCh := pwr.AggregateWounds(out, maxSize)
+		var got []*pwr.Wound
+		cls, msg := lib.WithDeadline(20e9, func() error {
+			for _, w := range in {
+				cp := *w
+				inCh <- &cp
+			}
+			close(inCh)
+			for w := range out {
+				got = append(got, w)
+			}
+			return nil
+		})
+		oracle := ""
+		if cls != "ok" {
+			oracle = "AggregateWounds " + cls + ": " + msg
+		}
+		// oracle: every offset inside an input FILE wound is inside an output FILE wound; healthy markers relayed
+		if oracle == "" {
+			for _, w := range in {
+				if w.Kind == pwr.WoundKind_FILE {
+					for off := w.Start; off < w.End; off += unit {
+						ok := false
+						for _, g := range got {
+							if g.Kind == pwr.WoundKind_FILE && g.Start <= off && off < g.End {
+								ok = true
+							}
+						}
+						if !ok {
+							oracle = fmt.Sprintf("offset %d of input wound [%d,%d) is in no output wound (maxSize %d)", off, w.Start, w.End, maxSize)
+							break
+						}
+					}
+				} else {
+					ok := false
+					for _, g := range got {
+						if g.Kind == w.Kind && g.Start == w.Start && g.End == w.End {
+							ok = true
+						}
+					}
+					if !ok {
+						oracle = fmt.Sprintf("healthy marker [%d,%d) not relayed", w.Start, w.End)
+					}
+				}
+				if oracle != "" {
+					break
+				}
+			}
+		}
+		var is, gs []string
+		for _, w := range in {
+			is = append(is, woundCoq(w))
+		}
+		for _, w := range got {
+			gs = append(gs, woundCoq(w))
+		}
+		c.Out.Emit(&lib.Case{Group: "agg", Class: fmt.Sprintf("agg/unit%d", unit), Nontrivial: cnt >= 3,
+			Input: map[string]interface{}{"maxSize": maxSize, "in": woundsJ(in)}, Obs: map[string]interface{}{"out": woundsJ(got)}, Oracle: oracle,
+			Coq: fmt.Sprintf("($ID%%N, %s, %s, %s)", lib.CoqZ(maxSize), lib.CoqList(is), lib.CoqList(gs))})
+	}
+	return nil
+}
+
+// c05Big: > 4 MiB of contiguous damage in one file at the real constants (oracle only: the
+// model is not evaluated on 5 MiB lists; the aggregation logic itself is compared in group agg).
+func c05Big(c *Ctx) error {
+	r := c.Rng.Fork()
+	n := c.N(1, 4)
+	for i := 0; i < n; i++ {
+		nb := 66 + r.Intn(70)
+		size := nb*bs64 + []int{0, 1, 777}[r.Intn(3)]
+		signed := &lib.Build{}
+		data := r.Bytes(size)
+		signed.Put(lib.Entry{Path: "big", Kind: "file", Data: data})
+		dmg := append([]byte(nil), data...)
+		from := r.Intn(3)
+		for b := from; b*bs64 < size; b++ {
+			if i%2 == 1 && b == from+65+r.Intn(3) {
+				continue // one healthy block inside the run
+			}
+			dmg[b*bs64+r.Intn(min(bs64, size-b*bs64))] ^= 0x10
+		}
+		actual := &lib.Build{}
+		actual.Put(lib.Entry{Path: "big", Kind: "file", Data: dmg})
+		base := filepath.Join(c.Tmp, fmt.Sprintf("c05big-%d", i))
+		sdir, adir := filepath.Join(base, "signed"), filepath.Join(base, "actual")
+		if err := signed.WriteTo(sdir); err != nil {
+			return err
+		}
+		if err := actual.WriteTo(adir); err != nil {
+			return err
+		}
+		sig, err := lib.SignDir(sdir)
+		if err != nil {
+			return err
+		}
+		pww := filepath.Join(base, "w.pww")
+		var wounds []*pwr.Wound
+		cls, msg := lib.WithDeadline(120e9, func() error {
+			vctx := &pwr.ValidatorContext{WoundsPath: pww, Consumer: lib.Quiet}
+			return vctx.Validate(context.Background(), adir, sig)
+		})
+		oracle := ""
+		if cls != "ok" {
+			oracle = "validation " + cls + ": " + msg
+		} else {
+			wounds, err = readWounds(pww)
+			if err != nil {
+				return err
+			}
+			for off := 0; off < size && oracle == ""; off++ {
+				if dmg[off] != data[off] {
+					ok := false
+					for _, w := range wounds {
+						if w.Kind == pwr.WoundKind_FILE && w.Index == 0 && w.Start <= int64(off) && int64(off) < w.End {
+							ok = true
+						}
+					}
+					if !ok {
+						oracle = fmt.Sprintf("file differs at offset %d (block %d of %d damaged blocks in a row) outside every wound", off, off/bs64, nb)
+					}
+				}
+			}
+			for _, w := range wounds {
+				if w.Start < 0 || w.Start > w.End {
+					oracle = fmt.Sprintf("malformed wound [%d,%d)", w.Start, w.End)
+				}
+			}
+		}
+		sortWounds(wounds)
+		c.Out.Emit(&lib.Case{Class: "big-contiguous-damage", Nontrivial: true,
+			Input: map[string]interface{}{"size": size, "blocks": nb, "firstDamaged": from, "subseed": i},
+			Obs:   map[string]interface{}{"validate": cls, "wounds": woundsJ(wounds)}, Oracle: oracle})
+		removeAll(base)
+	}
+	return nil
+}
+
 func runC05(c *Ctx) error {
+	if err := c05Aggregate(c); err != nil {
+		return err
+	}
+	if err := c05Big(c); err != nil {
+		return err
+	}
 	r := c.Rng.Fork()
 	n := c.N(36, 500)
 	for i := 0; i < n; i++ {
